@@ -1,0 +1,18 @@
+//go:build verif
+
+package blobstore
+
+// Exported wrappers for unexported pure range arithmetic (verification harness only).
+
+func VerifPositiveRange(offset, length, size int64) (int64, int64) {
+	p := BlobRange{offset, length}.positiveRange(size)
+	return p.offset, p.length
+}
+
+func VerifRangeHeader(offset, length int64) string {
+	return BlobRange{offset, length}.asHttpRangeHeader()
+}
+
+func VerifIsAllRange(offset, length int64) bool {
+	return BlobRange{offset, length}.isAllRange()
+}
